@@ -115,7 +115,8 @@ func (e *c13Env) renderProxy(c *c13Cfg) (c13M, c13L) {
 	case "-":
 		lb = nil
 	case "emptyobj":
-	case "roundRobin", "random", "weightedRandom", "ipHash", "headerHash", "bogus":
+	case "roundRobin", "random", "weightedRandom", "ipHash", "headerHash", "bogus",
+		"RoundRobin", "IPHASH": // the last two: valid policies in another letter case
 		lb["policy"] = p
 	default:
 		c13Bad(K, "lb", p)
@@ -132,7 +133,7 @@ func (e *c13Env) renderProxy(c *c13Cfg) (c13M, c13L) {
 	c13Str(main, "timeout", c.f("timeout"))
 	switch r := c.f("retry"); r {
 	case "-":
-	case "r1", "cb1", "undef":
+	case "r1", "cb1", "undef", "rwait":
 		main["retryPolicy"] = r
 	default:
 		c13Bad(K, "retry", r)
@@ -173,6 +174,8 @@ func (e *c13Env) renderProxy(c *c13Cfg) (c13M, c13L) {
 			ok["methods"] = c13L{}
 		case "noCodes":
 			delete(ok, "codes")
+		case "lowerMethods": // valid methods in another letter case
+			ok["methods"] = c13L{"get", "post"}
 		case "emptyobj":
 			return c13M{}
 		default:
@@ -229,6 +232,11 @@ func (e *c13Env) renderProxy(c *c13Cfg) (c13M, c13L) {
 			return c13M{"policy": "headerHash", "permil": 1000}
 		case "bogus":
 			return c13M{"policy": "bogus", "permil": 10}
+		case "policyUpper": // a valid policy in another letter case
+			return c13M{"policy": "RANDOM", "permil": 1000}
+		case "urlsLowerMethod": // a valid method in another letter case
+			return c13M{"headers": c13M{"X-A": c13M{"exact": "1"}},
+				"urls": c13L{c13M{"methods": c13L{"get"}, "url": c13M{"prefix": "/"}}}}
 		}
 		c13Bad(K, "matcher", class)
 		return nil
@@ -307,7 +315,9 @@ func (e *c13Env) renderProxy(c *c13Cfg) (c13M, c13L) {
 	var res c13L
 	switch r := c.f("resdef"); r {
 	case "both", "-":
+		// rwait: a back-off long enough for a request's deadline to expire in it (request class "expire")
 		res = c13L{c13M{"name": "r1", "kind": "Retry", "maxAttempts": 2, "waitDuration": "1ms"},
+			c13M{"name": "rwait", "kind": "Retry", "maxAttempts": 2, "waitDuration": "40ms"},
 			c13M{"name": "cb1", "kind": "CircuitBreaker", "slidingWindowSize": 4, "minimumNumberOfCalls": 2, "waitDurationInOpenState": "5ms"}}
 	case "none":
 	default:
@@ -355,6 +365,8 @@ func (e *c13Env) renderValidator(c *c13Cfg) (c13M, c13L) {
 		raw["jwt"] = c13M{"algorithm": "HS256", "secret": "abc"}
 	case "emptyobj":
 		raw["jwt"] = c13M{}
+	case "lowerAlg": // a valid algorithm in another letter case
+		raw["jwt"] = c13M{"algorithm": "hs256", "secret": "313233"}
 	default:
 		c13Bad(K, "jwt", v)
 	}
@@ -412,6 +424,8 @@ func (e *c13Env) renderValidator(c *c13Cfg) (c13M, c13L) {
 		raw["oauth2"] = c13M{"tokenIntrospect": c13M{"clientId": "id"}}
 	case "both":
 		raw["oauth2"] = c13M{"jwt": c13M{"algorithm": "HS256", "secret": "313233"}, "tokenIntrospect": c13M{"endPoint": e.live + "/introspect"}}
+	case "jwtLowerAlg":
+		raw["oauth2"] = c13M{"jwt": c13M{"algorithm": "hs256", "secret": "313233"}}
 	default:
 		c13Bad(K, "oauth2", v)
 	}
@@ -429,6 +443,8 @@ func (e *c13Env) renderValidator(c *c13Cfg) (c13M, c13L) {
 		raw["basicAuth"] = c13M{"mode": "ETCD", "etcdPrefix": "/creds/"}
 	case "badMode":
 		raw["basicAuth"] = c13M{"mode": "LDAP"}
+	case "lowerMode": // a valid mode in another letter case
+		raw["basicAuth"] = c13M{"mode": "file", "userFile": e.htpasswd}
 	default:
 		c13Bad(K, "basicAuth", v)
 	}
@@ -494,6 +510,8 @@ func (e *c13Env) renderRateLimiter(c *c13Cfg) (c13M, c13L) {
 		raw["urls"] = c13L{c13M{"methods": c13L{"GET"}, "url": c13M{"prefix": "/"}, "policyRef": "p1"}}
 	case "badMethod":
 		raw["urls"] = c13L{c13M{"methods": c13L{"FETCH"}, "url": c13M{"prefix": "/"}, "policyRef": "p1"}}
+	case "lowerMethod": // a valid method in another letter case
+		raw["urls"] = c13L{c13M{"methods": c13L{"get"}, "url": c13M{"prefix": "/"}, "policyRef": "p1"}}
 	case "noRef":
 		raw["urls"] = c13L{u(c13M{"prefix": "/"}, "")}
 	case "undefRef":
@@ -839,6 +857,8 @@ func (e *c13Env) renderMeshAdaptor(c *c13Cfg) (c13M, c13L) {
 		canary["filter"] = c13M{}
 	case "nullhdr":
 		canary["filter"] = c13M{"headers": c13M{"X-A": nil}}
+	case "policyUpper": // a valid policy in another letter case
+		canary["filter"] = c13M{"policy": "RANDOM", "permil": 1000}
 	default:
 		c13Bad(K, "filter", v)
 	}
@@ -947,6 +967,11 @@ func (e *c13Env) renderVOnly(c *c13Cfg) c13M {
 			raw["certIndex"] = 0
 			raw["target"] = "issuer"
 			raw["field"] = "Country"
+		case "upperTarget": // valid target and field in another letter case
+			raw["certIndex"] = -1
+			raw["target"] = "Subject"
+			raw["field"] = "commonName"
+			raw["headerKey"] = "X-CN"
 		case "empty":
 		default:
 			c13Bad(K, "spec", v)
